@@ -139,6 +139,9 @@ func main() {
 		fmt.Fprintln(os.Stderr, "usage: check <ID> [--tier quick|thorough] [--replay file] [--procs n] [--budget seconds] [--keep]")
 		os.Exit(2)
 	}
+	if os.Args[1] == "--fidelity" {
+		os.Exit(fidelity())
+	}
 	if os.Args[1] == "--list" {
 		var ids []string
 		for id := range props {
@@ -807,7 +810,7 @@ func selfTest(id string, pc *propCfg, seed uint64, n int) int {
 			cmd := exec.Command(bin, "-test.run", "^TestSim$", "-test.timeout", "60m", "-test.count=1")
 			cmd.Env = env
 			out, err := cmd.CombinedOutput()
-			if err != nil {
+			if _, serr := os.Stat(lp + ".sum"); err != nil && !(pc.Race && serr == nil) {
 				mu.Lock()
 				bad = fmt.Sprintf("process failed: %v\n%s", err, tail(string(out), 2000))
 				mu.Unlock()
@@ -839,5 +842,45 @@ func selfTest(id string, pc *propCfg, seed uint64, n int) int {
 	if diffs > 0 || lines == 0 {
 		return 2
 	}
+	return 0
+}
+
+// fidelity validates the instrumenter: the repository's own unit tests are compiled
+// against the instrumented copy (shims in pass-through mode: no simulation is active) and
+// must pass. udp and stdnet are left out (their tests need real sockets, which the
+// instrumented udp package no longer opens).
+func fidelity() int {
+	scratch := fmt.Sprintf("/dev/shm/verif-fidelity-%d", os.Getpid())
+	defer os.RemoveAll(scratch)
+	repo := filepath.Join(scratch, "repo")
+	_ = os.MkdirAll(repo, 0o755)
+	if out, err := sh("/", nil, "rsync", "-a", "--exclude", ".git", "--exclude", "examples", repoDir+"/", repo+"/"); err != nil {
+		return infra("copy: %v %s", err, out)
+	}
+	zz := filepath.Join(repo, "zzverif")
+	_ = os.MkdirAll(zz, 0o755)
+	for _, p := range []string{"simrt", "simnet"} {
+		if out, err := sh("/", nil, "rsync", "-a", filepath.Join(verifDir, "sim", p)+"/", filepath.Join(zz, p)+"/"); err != nil {
+			return infra("copy %s: %v %s", p, err, out)
+		}
+	}
+	adaptors, _ := filepath.Glob(filepath.Join(verifDir, "sim", "adaptors", "*", "*.go"))
+	for _, a := range adaptors {
+		b, _ := os.ReadFile(a)
+		_ = os.WriteFile(filepath.Join(repo, filepath.Base(filepath.Dir(a)), filepath.Base(a)), b, 0o644)
+	}
+	if out, err := sh(repo, goEnv(), filepath.Join(verifDir, "bin", "simgen"), append([]string{"-root", repo}, allPkgs...)...); err != nil {
+		return infra("simgen: %v\n%s", err, out)
+	}
+	// TestBufferAlloc counts allocations (the shims allocate) and TestTokenBucketFilter is a 40 s real-time throughput test: both skipped
+	pkgs := []string{"./packetio/", "./deadline/", "./dpipe/", "./replaydetector/", "./netctx/", "./connctx/", "./test/", "./vnet/"}
+	args := append([]string{"test", "-vet=off", "-count=1", "-skip", "TestTokenBucketFilter|TestBufferAlloc", "-timeout", "20m"}, pkgs...)
+	out, err := sh(repo, goEnv(), "go1.26.8", args...)
+	fmt.Println(strings.TrimSpace(out))
+	if err != nil {
+		fmt.Println("FIDELITY: FAILED - the instrumented copy does not pass the repository's own tests")
+		return 2
+	}
+	fmt.Println("FIDELITY: the repository's own tests pass on the instrumented copy (pass-through shims)")
 	return 0
 }
